@@ -116,6 +116,30 @@ pub fn run_unixapi(out: &mut dyn Write) {
         writeln!(out, "unixapi\tstop {}\t{}", ctor, res).unwrap();
         let _ = std::fs::remove_file(format!("/tmp/ccp/{}", name));
     }
+    // ---- stop while a peer without a path of its own keeps sending (its datagrams carry no address)
+    for ctor in ["blocking new", "nonblocking new"] {
+        let name = format!("{}-unb-{}", tag, ctor.replace(' ', "_"));
+        let (tx, rx) = mpsc::channel();
+        let h = Arc::new(AtomicBool::new(true));
+        let (h2, name2, ctor2) = (h.clone(), name.clone(), ctor.to_string());
+        std::thread::spawn(move || {
+            macro_rules! go { ($sk:expr) => { match $sk { Ok(sk) => { let rb = RunBuilder::new(BackendBuilder { sock: sk }).default_alg(NopAlg).with_stop_handle(h2); let _ = tx.send(rb.run().map_err(|e| e.0)); } Err(e) => { let _ = tx.send(Err(format!("cannot-bind {}", e.0))); } } } }
+            if ctor2 == "blocking new" { go!(Socket::<Blocking>::new(&name2)) } else { go!(Socket::<Nonblocking>::new(&name2)) }
+        });
+        let chatter = Arc::new(AtomicBool::new(true));
+        let (c2, dst) = (chatter.clone(), format!("/tmp/ccp/{}", name));
+        let talker = std::thread::spawn(move || { if let Ok(s) = std::os::unix::net::UnixDatagram::unbound() { while c2.load(Ordering::SeqCst) { let _ = s.send_to(&[9u8, 0, 8, 0, 1, 0, 0, 0], &dst); std::thread::sleep(Duration::from_millis(60)); } } });
+        std::thread::sleep(Duration::from_millis(300));
+        h.store(false, Ordering::SeqCst);
+        let res = match rx.recv_timeout(Duration::from_millis(3500)) {
+            Ok(Ok(())) => "returned-ok".to_string(),
+            Ok(Err(e)) => format!("returned-error {}", e.replace(' ', "-")),
+            Err(_) => "did-not-return-within-3.5s".to_string(),
+        };
+        chatter.store(false, Ordering::SeqCst); let _ = talker.join();
+        writeln!(out, "unixapi\tstop {} while-a-pathless-peer-sends\t{}", ctor, res).unwrap();
+        let _ = std::fs::remove_file(format!("/tmp/ccp/{}", name));
+    }
     // ---- the sender address is reported verbatim (absolute, and relative to the working directory)
     {
         let rname = format!("{}-addr", tag);
@@ -134,6 +158,17 @@ pub fn run_unixapi(out: &mut dyn Write) {
                         let mut buf = [0u8; 64];
                         match recv.recv(&mut buf) { Ok((16, a)) => { if a != std::path::PathBuf::from(&rel) { verdict = format!("relative sender {} reported as {}", rel, a.display()); } } r => { verdict = format!("unexpected {:?}", r.map(|x| x.0).ok()); } }
                         let _ = std::fs::remove_file(&rel);
+                    }
+                    {
+                        use std::os::unix::ffi::OsStrExt;
+                        let raw = std::ffi::OsStr::from_bytes(b"snd-\xff\xfe-x");
+                        let _ = std::fs::remove_file(raw);
+                        if let Ok(s) = std::os::unix::net::UnixDatagram::bind(raw) {
+                            let _ = s.send_to(b"0123456789abcdef", format!("/tmp/ccp/{}", rname));
+                            let mut buf = [0u8; 64];
+                            match recv.recv(&mut buf) { Ok((16, a)) => { if a.as_os_str() != raw && verdict == "verbatim" { verdict = format!("a sender path that is not UTF-8 was reported as {}", a.display()); } } r => { if verdict == "verbatim" { verdict = format!("unexpected {:?}", r.map(|x| x.0).ok()); } } }
+                            let _ = std::fs::remove_file(raw);
+                        }
                     }
                     let abs = dir.join("abs-sender");
                     let _ = std::fs::remove_file(&abs);
